@@ -489,7 +489,7 @@ pub fn run(cfg: &Cfg) -> Stats {
         // every one- and two-component query (and, thorough, the whole core universe): the
         // library's binary search must find exactly the rows a hash index of the same tables finds
         st = st.merge(sweep(cfg, &h, "c18", &|t, st, mode| check_lookup_triple(&h, t, st, mode)));
-        let n = cfg.pick(400_000, 4_000_000);
+        let n = cfg.pick(2_000_000, 8_000_000);
         let s = run_strategy(&s_dressed(&h), cfg.seed, "c18-lookups", n, |d, st| check_lookup(&h, d, st));
         st = st.merge(s);
         st.subspace("generated look-ups: linear scan of the compiled tables vs likelysubtags::maximize (proptest)", n, false);
